@@ -353,6 +353,9 @@ def tokensLoop (h : H) : Nat → M (List Tok)
       return { ty := h'.tokType, off := h'.tokStart, len := h'.tokLen } :: rest
     else return []
 
-def tokens (s : Bytes) (ctx : Nat) : M (List Tok) := tokensLoop (init s ctx) (2 * s.length + 3)
+/-- loop fuel: the progress measure `3·(bytes left) + rank(state)` starts at most at `3|s|+3` -/
+def tokFuel (n : Nat) : Nat := 3 * n + 4
+
+def tokens (s : Bytes) (ctx : Nat) : M (List Tok) := tokensLoop (init s ctx) (tokFuel s.length)
 
 end LibInj.H5
